@@ -1,5 +1,5 @@
 SPECIFICATION Spec
 CONSTANTS
-  Part = "rules"
+  Part = "small"
   Variant = "safety_despite_custom_allow"
 INVARIANTS CustomAllowSkipsSafety
